@@ -1318,6 +1318,12 @@ def oracle_c09(S):
         return (f"{tag}error closure {c['errcb']} cut the transfer short on a network that never lost a segment: the reader only stalled for "
                 f"{c['stall_only']} ms (receive window closed for a while) and then kept reading (read={c['read']}, "
                 f"sent={c['sent']}, never accepted={c['todo']})")
+    if c["end"] in ("op-cap", "step-cap"):
+        # the driver's own operation budget ran out before the (virtual-time) bound of the property: inconclusive, not a
+        # violation — e.g. two sockets that both miss data exchange duplicate ACKs for as long as the zero-latency network
+        # delivers them, which eats operations without advancing the clock.  Counted in the evidence.
+        S.inconclusive = c["end"]
+        return None
     if c["end"] != "done":
         return f"no completion and no error closure after healing: end={c['end']} after {c['steps']} steps / {c['elapsed']} ms " \
                f"(closed={c['closed']}, errors={c['errcb']}, read={c['read']}, sent={c['sent']})"
